@@ -126,7 +126,44 @@ pub fn exec_op(ctx: &mut ArrCtx, st6: &mut C06State, st: &mut C16State, verb: &s
             if std::env::var("VERIF_DEBUG").is_ok() { eprintln!("tlcache events: {} busy {}", ev.iter().filter(|e| e.0.starts_with("tlcache.")).count(), busy); }
             if busy > 0 { format!("reentrant {}", r) } else { r }
         }
+        // two clients on chunk-disjoint halves of an array whose shards have thousands of inner chunks (a shard index
+        // large enough for data-parallel helpers to split): A reads its half through the sharded extension with a FRESH
+        // shard-index cache every time, B reads the other half plainly. Must complete (the supervisor turns a hang into
+        // `timeout`) and return the stored data.
+        "shardext_stress" => {
+            use zarrs::array::{ArrayBuilder, ArrayShardedReadableExt, ArrayShardedReadableExtCache, DataType, FillValue};
+            use zarrs::array::codec::array_to_bytes::sharding::ShardingCodecBuilder;
+            let n: usize = m["n"].parse().unwrap();
+            let (rows, cols): (u64, u64) = (m["rows"].parse().unwrap(), m["cols"].parse().unwrap());
+            let store = Arc::new(zarrs::storage::store::MemoryStore::new());
+            let mut b = ArrayBuilder::new(vec![rows, cols], DataType::UInt8, vec![1, cols].try_into().unwrap(), FillValue::from(0u8));
+            b.array_to_bytes_codec(Arc::new(ShardingCodecBuilder::new(vec![1, 1].try_into().unwrap()).build()));
+            let array = Arc::new(b.build(store, "/").unwrap());
+            let data: Vec<u8> = (0..rows * cols).map(|i| (i % 251) as u8 + 1).collect();
+            array.store_array_subset_elements(&array.subset_all(), &data).unwrap();
+            let old_ccm = zarrs::config::global_config().chunk_concurrent_minimum();
+            zarrs::config::global_config_mut().set_chunk_concurrent_minimum(64);
+            let half = rows / 2;
+            let ra = zarrs::array_subset::ArraySubset::new_with_ranges(&[0..half, 0..4]);
+            let rb = zarrs::array_subset::ArraySubset::new_with_ranges(&[half..rows, 0..4]);
+            let expect = |r0: u64, r1: u64| -> Vec<u8> { (r0..r1).flat_map(|r| (0..4u64).map(move |c| ((r * cols + c) % 251) as u8 + 1)).collect() };
+            let (ea, eb) = (expect(0, half), expect(half, rows));
+            let a2 = array.clone();
+            let tb = std::thread::spawn(move || { let mut bad = 0; for _ in 0..n { match a2.retrieve_array_subset_elements::<u8>(&rb) { Ok(v) if v == eb => {}, _ => bad += 1 } } bad });
+            let mut bad_a = 0;
+            for _ in 0..n {
+                let cache = ArrayShardedReadableExtCache::new(&*array);
+                match array.retrieve_array_subset_elements_sharded_opt::<u8>(&cache, &ra, &ctx.opts) { Ok(v) if v == ea => {}, _ => bad_a += 1 }
+            }
+            let bad_b = tb.join().unwrap_or(n);
+            zarrs::config::global_config_mut().set_chunk_concurrent_minimum(old_ccm);
+            format!("val n={} bad_a={} bad_b={}", n, bad_a, bad_b)
+        }
         "set_ccm" => { zarrs::config::global_config_mut().set_chunk_concurrent_minimum(m["v"].parse().unwrap()); "ok".into() }
+        // codec concurrency target of the following operations (the cfg line's `ct=` sets the initial one)
+        "set_ct" => { ctx.opts.set_concurrent_target(m["v"].parse().unwrap()); "ok".into() }
+        // the raw stored value of a shard (judged by the driver: legal layout, length, contents, equality across targets)
+        "rawshard" => crate::arr::exec_op(ctx, "raw", m),
         _ => c06_exec(ctx, st6, verb, m, dtype),
     }
 }
@@ -193,6 +230,70 @@ pub fn generate(tier: &str, seed: u64) -> Vec<String> {
         out.push("c16 op prun".into());
         gen_full_reads(&mut rng, &cfg, &mut out, "c16");
     }
+    // (d) the parallel shard assembly (`ShardingCodec::encode_bounded` / `encode_unbounded`): one shard with MANY inner chunks
+    // (>= 64, so that the parallel loop over the inner chunks is split at a concurrency target > 1), the same contents
+    // written at concurrency targets 1, 2, 4, 16, the raw shard handed to the driver after every write (`rawshard`:
+    // legal layout, length = contents + index, inner chunks = the encodings of the model's contents, equal across
+    // targets), then a stress repetition at target 16
+    {
+        let dts = dtypes();
+        let u16t = dts.iter().find(|d| d.name == "uint16").unwrap().clone();
+        let u8t = dts.iter().find(|d| d.name == "uint8").unwrap().clone();
+        let shard_json = |inner: &str, codecs: &str, idx: &str, loc: &str| format!("[{{\"name\":\"sharding_indexed\",\"configuration\":{{\"chunk_shape\":[{}],\"codecs\":{},\"index_codecs\":{},\"index_location\":\"{}\"}}}}]", inner, codecs, idx, loc);
+        let bytes_le = "[{\"name\":\"bytes\",\"configuration\":{\"endian\":\"little\"}}]";
+        let bytes_gzip = "[{\"name\":\"bytes\"},{\"name\":\"gzip\",\"configuration\":{\"level\":1}}]";
+        let idx_crc = "[{\"name\":\"bytes\",\"configuration\":{\"endian\":\"little\"}},{\"name\":\"crc32c\"}]";
+        let idx_be = "[{\"name\":\"bytes\",\"configuration\":{\"endian\":\"big\"}}]";
+        // (name, cfg, number of stress repetitions quick/thorough)
+        let variants: Vec<(Cfg, u64, u64)> = vec![
+            // bounded path, 1024 inner chunks of one element, index at the end with checksum
+            (Cfg { dtype: u16t.clone(), fill: u16t.fills[0].clone(), shape: vec![1024], grid: vec![(true, vec![1024])], regular_impl: true,
+                keys: ("default".into(), "/".into()), codecs_json: shard_json("1", bytes_le, idx_crc, "end"),
+                chain_desc: "shard[1;end;le+crc;bytes-little]".into(), sharded: true, path: "/asm1".into(), eff_inner: Some(vec![1]) }, 30, 300),
+            // bounded path, 2-D, 256 inner chunks of 2x2, index at the start, big endian
+            (Cfg { dtype: u8t.clone(), fill: u8t.fills[0].clone(), shape: vec![32, 32], grid: vec![(true, vec![32]), (true, vec![32])], regular_impl: true,
+                keys: ("default".into(), "/".into()), codecs_json: shard_json("2,2", "[{\"name\":\"bytes\"}]", idx_be, "start"),
+                chain_desc: "shard[2x2;start;be;bytes]".into(), sharded: true, path: "/asm2".into(), eff_inner: Some(vec![2, 2]) }, 10, 100),
+            // unbounded path (gzip inner codec), 128 inner chunks of 2 elements
+            (Cfg { dtype: u8t.clone(), fill: u8t.fills[0].clone(), shape: vec![256], grid: vec![(true, vec![256])], regular_impl: true,
+                keys: ("default".into(), "/".into()), codecs_json: shard_json("2", bytes_gzip, idx_crc, "end"),
+                chain_desc: "shard[2;end;le+crc;bytes|gzip]".into(), sharded: true, path: "/asm3".into(), eff_inner: Some(vec![2]) }, 10, 100),
+        ];
+        for (vi, (cfg, nq, nt)) in variants.iter().enumerate() {
+            out.push(cfg.cfg_line("c16", "memory", false, false, " ct=1"));
+            out.push("c16 op set_ccm v=1".into());
+            let n: u64 = cfg.shape.iter().product();
+            let es = cfg.dtype.es.unwrap();
+            let chunk0 = nl(&vec![0; cfg.shape.len()]);
+            for round in 0..2u64 {
+                // all elements distinct-ish and non-fill, except a few all-fill inner chunks (elided tasks)
+                let salt = rng.below(200) + 1;
+                let xs: Vec<Vec<u8>> = (0..n).map(|i| {
+                    let blk = i / 8;
+                    if blk % 11 == 3 + round { vec![0u8; es] } else { let v = (i * 7 + salt) % 65521 + 1; let mut e = v.to_le_bytes()[..es].to_vec(); if e.iter().all(|&b| b == 0) { e[0] = 1; } e }
+                }).collect();
+                let data = show_elems(&xs);
+                for ct in [1u64, 2, 4, 16] {
+                    out.push(format!("c16 op set_ct v={}", ct));
+                    out.push(format!("c16 op store_chunk c={} data={}", chunk0, data));
+                    out.push(format!("c16 op rawshard c={} grp=v{}r{}", chunk0, vi, round));
+                }
+                out.push("c16 op set_ct v=1".into());
+                out.push(format!("c16 op retrieve_chunk c={}", chunk0));
+                if round == 1 {
+                    // stress: the same store + raw check repeated at target 16
+                    out.push("c16 op set_ct v=16".into());
+                    for _ in 0..(if thorough { *nt } else { *nq }) {
+                        out.push(format!("c16 op store_chunk c={} data={}", chunk0, data));
+                        out.push(format!("c16 op rawshard c={} grp=v{}r{}", chunk0, vi, round));
+                    }
+                    out.push("c16 op set_ct v=1".into());
+                    out.push(format!("c16 op retrieve_chunk c={}", chunk0));
+                }
+            }
+            out.push("c16 op set_ccm v=4".into());
+        }
+    }
     // (c0) a larger sharded array (64x64 uint16, four 32x32 shards of 2x2 inner chunks, gzip): enough internal rayon work for
     // a stolen sibling task to re-enter a thread-local cache whose lock is held across the fill closure
     {
@@ -233,5 +334,7 @@ pub fn generate(tier: &str, seed: u64) -> Vec<String> {
         }
         out.push("c16 op set_ccm v=4".into());
     }
+    // (e) the shard-index cache under real parallelism (see `shardext_stress`)
+    out.push(format!("c16 op shardext_stress n={} rows=32 cols=2048", if thorough { 400 } else { 60 }));
     out
 }
